@@ -24,6 +24,7 @@ type callSpec struct {
 	Kind    int  `json:"kind"` // 0 Write1 1 Writev 2 CtxWrite1 3 CtxWritev 4 Writer().Write
 	CtxDone bool `json:"ctxdone,omitempty"`
 	CtxLive bool `json:"ctxlive,omitempty"` // a cancellable context that is never cancelled (Done() != nil)
+	CtxDL   bool `json:"ctxdl,omitempty"`   // ... and it carries a deadline far in the future
 	Size    int  `json:"size"`
 	Segs    int  `json:"segs,omitempty"` // vector writes: number of segments (0 = two)
 }
@@ -148,6 +149,8 @@ func runCfg(c cfg, choose func(step int, en []*sched.Thread, last *sched.Thread)
 	netty.VerifAttach(pl, ch)
 	live, liveCancel := context.WithCancel(context.Background())
 	_ = liveCancel
+	liveDL, dlCancel := context.WithDeadline(context.Background(), time.Now().Add(time.Hour))
+	_ = dlCancel
 	cancelled, cancelFn := context.WithCancel(context.Background())
 	cancelFn()
 	cur := map[int]*callObs{}
@@ -190,6 +193,9 @@ func runCfg(c cfg, choose func(step int, en []*sched.Thread, last *sched.Thread)
 				cctx := context.Background()
 				if cs.CtxLive {
 					cctx = live
+					if cs.CtxDL {
+						cctx = liveDL
+					}
 				}
 				if cs.CtxDone {
 					cctx = cancelled
